@@ -44,7 +44,17 @@ pub fn multi_ematch<L: Language>(pat: &MultiPattern<L>, eg: &EGraph<L>) -> Vec<S
         }
     }
 
-    states.into_iter().map(|x| x.subst).collect()
+    // the slots of invocations that were bound late may still carry names that have been unified away since.
+    states
+        .into_iter()
+        .map(|x| {
+            let mut subst = x.subst.clone();
+            for v in subst.values_mut() {
+                *v = state_appid_find(v.clone(), &x);
+            }
+            subst
+        })
+        .collect()
 }
 
 fn multi_ematch_step<L: Language>(pv: &PVar, node: &L, children: &[PVar], mut state: MultiState, eg: &EGraph<L>) -> Vec<MultiState> {
